@@ -54,7 +54,7 @@ CLAIMED = {
             "Static decision of two structural clauses of C23 (DESIGN section 3): the auto-update bookkeeping on which Extreme, Delay, Differentiate (and the other auto-update users) depend -- a value written into an update slot is marked realized on all paths with the same index, the 'already realized' test uses that index, the Acceleration-stage hook reaches the update, the getter reads a written slot -- "
             "and the ROUTING each definition prescribes: which operands are combined by which operator (Plus/Minus/Scale), which measure feeds zdot, the initial z, the value and the k-th derivative of Integrate, which comparison and start value each Extreme operation uses, and that Delay looks up time minus delay. "
             "The numerical values (integration accuracy, interpolation in the delay buffer, which history entries are kept, differentiation formulas) are NOT decided."),
-    "C24": ("CLONE (float~double and complex<float>~complex<double> wrapper specialisations issue identical LAPACK call traces modulo prefix/type/local names), REACHDEF (lwork and workspace derived from the -1 query to the same routine), OPTCHAR (option characters valid for the real/complex flavour reached, decided per caller instantiation), DEFTOL (sibling default-tolerance agreement, no fixed-precision constant in element-type templates)",
+    "C24": ("CLONE (float~double and complex<float>~complex<double> wrapper specialisations issue identical LAPACK call traces modulo prefix/type/local names), REACHDEF (lwork and workspace derived from the -1 query to the same routine), OPTCHAR (option characters valid for the real/complex flavour reached, decided per caller instantiation), DEFTOL (sibling default-tolerance agreement, no fixed-precision constant in element-type templates); handle/Rep discipline over Factor*.cpp and Eigen.cpp: OVERRIDE (handle-called RepBase virtuals have typed overriders), SHADOW, PRESERVE (stored input never handed to a destroying LAPACK driver), NEEDFLAG (lazy-evaluation flags)",
             "Static decision of the clause the property names as the risk, 'LAPACK argument conversion and workspace sizing is separate code per type' (DESIGN section 3, C24): per wrapper family the specialisations agree argument-for-argument, "
             "and every real call's lwork/workspace come from the preceding workspace query. Everything in Factor*.cpp / Eigen.cpp (rank logic, residuals, orderings) is numerical and NOT decided."),
     "C07": ("COMPLETE (virtual-set completeness per declared (mp,mv,ma)), AGREE (bodies selecting the kinematic input arrays == bodies selecting the force output arrays), LEVEL (count/segment/callee of one level per matrix builder), OPERATOR (multiplyByPVA: per level, error view and bias view over the same rows, bias subtracted on every path), FRAME adjacency in the constraint equations",
